@@ -172,6 +172,7 @@ class Executor:
             m0, sh0 = self.models[src], self.shadows[src]
             m1 = S.Model()
             m1.spec, m1.vars, m1.params, m1.elems, m1.exprs, m1.cons = m0.spec, m0.vars, m0.params, m0.elems, m0.exprs, m0.cons
+            m1.views = m0.views
             m1.problem = ox.Problem(m0.spec.get("name"))
             self.models[new_mid] = m1
             # bound / domain edits and parameter values are properties of the shared objects
@@ -182,6 +183,9 @@ class Executor:
             self.models.pop(op[1], None)
             self.shadows.pop(op[1], None)
             gc.collect()
+            return
+        if k == "swap_hook":
+            self.world.swap_hook()
             return
         if k == "flood":
             self._flood(op[1], op[2] if len(op) > 2 else "f")
@@ -219,6 +223,7 @@ class Executor:
                 raise HarnessError("redeclare on a problem with constraints")
             new = S.build_model(op[2], params_as_constants=self.pac)
             m.spec, m.vars, m.params, m.elems, m.exprs, m.cons = new.spec, new.vars, new.params, new.elems, new.exprs, new.cons
+            m.views = new.views
             m.handles = {}
             getattr(P, op[3])(m.exprs[op[4]])
             fresh = S.new_shadow(op[2])
